@@ -39,15 +39,17 @@ class Obj:
 
 
 def BOUNDS(tier):
-    n = 3 if tier == "quick" else 4
+    n = 4 if tier == "quick" else 5
     return {"max_nodes": n, "flavours": ["str", "str+ids", "obj"], "pool": POOL, "root_representations": ["fresh", "cleared"]}
 
 
 def shards(tier):
-    n = 3 if tier == "quick" else 4
+    n = 4 if tier == "quick" else 5
     out = []
     for fl in ("str", "ids", "obj"):
         for sh in shapes_upto(n if fl == "str" else n - 1, 0):
+            if B.max_siblings(sh) > len(POOL):
+                continue  # not constructible: siblings need distinct names
             out.append({"name": "dict-%s-%s" % (fl, shape_str(sh)), "fl": fl, "shape": list(sh), "no_twin": False})
     return out
 
